@@ -516,6 +516,12 @@ func (fr *Frame) execInstr(in ssa.Instruction) {
 		ln := fr.R.Heap.Get(fr.st, mapLenComp(mt), ArraySort(SInt, SInt))
 		fr.R.Heap.Set(fr.st, mapLenComp(mt), fr.define("h", Store(ln, ref, IntLit(0))))
 		fr.env[in] = TV(ref)
+		if mapStaysLocal(in, fr.depth == 0) {
+			if fr.ownMaps == nil {
+				fr.ownMaps = map[string]*types.Map{}
+			}
+			fr.ownMaps[ref.S] = mt
+		}
 	case *ssa.MakeSlice:
 		ref := fr.alloc("mkslice")
 		st := types.Unalias(in.Type()).Underlying().(*types.Slice)
